@@ -127,7 +127,25 @@ def make_world(seed):
     for ci in range(2):
         chrom = "chr%d" % (ci + 1)
         w.add_chrom(chrom, 440000)
+        # an unannotated locus whose reads start at the very first base of the sequence
+        g = Gene("START%d" % (ci + 1), chrom, "+-"[ci])
+        g.hidden.append(Transcript(g.id + ".h1", g.id, chrom, "+-"[ci], [(1, 250), (600, 800), (1100, 1400)], False, "first-base-novel"))
+        for intr in g.hidden[0].introns:
+            w.plant_sites(chrom, intr, "+-"[ci], "canonical")
+        w.genes.append(g)
         pos = 2000
+        # a gene annotated WITHOUT a strand ('.', legal in GTF): two isoforms whose introns are all canonical on one strand in the reference;
+        # untailed reads of a novel combination of these introns (the strand of the model can only come from the reference sequence)
+        ts_ = "+-"[ci]
+        g = Gene("DOT%d" % (ci + 1), chrom, ".")
+        e_ = [(pos, pos + 250), (pos + 600, pos + 800), (pos + 1200, pos + 1400), (pos + 1800, pos + 2000), (pos + 2400, pos + 2700)]
+        g.transcripts.append(Transcript(g.id + ".t1", g.id, chrom, ".", e_[:3], True, "unstranded-annotation"))
+        g.transcripts.append(Transcript(g.id + ".t2", g.id, chrom, ".", e_[2:], True, "unstranded-annotation"))
+        g.hidden.append(Transcript(g.id + ".h1", g.id, chrom, ts_, list(e_), False, "unstranded-annotation-novel"))
+        for intr in g.hidden[0].introns:
+            w.plant_sites(chrom, intr, ts_, "canonical")
+        w.genes.append(g)
+        pos += 2700 + rng.randint(2500, 3500)
         k = 0
         for order in ("A-first", "B-first"):
             for sc in ("plus", "minus", "none"):
@@ -228,6 +246,8 @@ def make_world(seed):
     for g in w.genes:
         for t in g.transcripts:
             n = 8 if t.kind == "shared-intron" else 5
+            if t.kind == "unstranded-annotation":
+                continue
             for _ in range(n):
                 w.read_from_transcript(t, mode="full", jitter=0, polya=rng.random() < 0.6, flag=rng.choice((0, 16)))
             if t.kind != "shared-intron" and len(t.exons) >= 3:
@@ -241,8 +261,8 @@ def make_world(seed):
                 w.plant_sites(t.chrom, (ex[-1][1] + 1, right_exon[0] - 1), t.strand, "canonical")
                 w.make_read(t.chrom, ex + [right_exon], truth={"src": t.id, "class": "extra-right-exon-outside-gene"})
         for t in g.hidden:
-            for _ in range(24 if t.kind == "contested-intron-novel" else 12 if t.kind in ("splice-site-tie", "splice-site-tie-no-tail", "mixed-introns-novel", "opposite-strand-pair-long", "opposite-strand-pair-short") else 7):
-                w.read_from_transcript(t, mode="full", jitter=0, polya=t.kind != "splice-site-tie-no-tail", flag=rng.choice((0, 16)))
+            for _ in range(24 if t.kind == "contested-intron-novel" else 12 if t.kind in ("splice-site-tie", "splice-site-tie-no-tail", "mixed-introns-novel", "opposite-strand-pair-long", "opposite-strand-pair-short", "unstranded-annotation-novel") else 7):
+                w.read_from_transcript(t, mode="full", jitter=0, polya=t.kind not in ("splice-site-tie-no-tail", "unstranded-annotation-novel"), flag=rng.choice((0, 16)))
     from vlib import world2
     world2.add_zoo(w)
     return w, truth_shared
@@ -433,6 +453,10 @@ def run(chk, scratch):
                     continue
                 introns = parse.introns_of(t["exons"])
                 val = recs[0].attrs.get("Canonical")
+                if val is None and fname == "transcript_models.gtf" and tid not in ref_ids:
+                    # every run of this check has --check_canonical: a novel model without the flag was not compared with the reference at all
+                    chk.violation("gtf-flag:novel-model-without-Canonical", "%s: %s (%s:%s) carries no Canonical attribute" %
+                                  (desc, tid, t["chr"], t["exons"][:2]), wit)
                 if val is not None:
                     n_gtf += 1
                     chk.note()
@@ -458,7 +482,7 @@ def run(chk, scratch):
                     ann = set()
                     for i in introns:
                         ann |= annotated_intron_strand.get((t["chr"], i), set())
-                    if len(ann) == 1:
+                    if len(ann) == 1 and list(ann)[0] in ("+", "-"):
                         evidence["annotated-introns"] = list(ann)[0]
                     h = hidden_by_chain.get((t["chr"], tuple(introns)))
                     if h is not None:
@@ -467,13 +491,19 @@ def run(chk, scratch):
                     votes = {"+": 0, "-": 0}
                     for i in introns:
                         a_ = annotated_intron_strand.get((t["chr"], i), set())
-                        v_ = list(a_)[0] if len(a_) == 1 else site_strand(w, t["chr"], [i])
+                        v_ = list(a_)[0] if len(a_) == 1 and list(a_)[0] in ("+", "-") else site_strand(w, t["chr"], [i])
                         if v_ in votes:
                             votes[v_] += 1
                     if votes["+"] != votes["-"] and t["strand"] in ("+", "-") and t["strand"] != ("+" if votes["+"] > votes["-"] else "-"):
                         chk.violation("novel-model-strand-contradicts-intron-majority",
                                       "%s: %s reported on %s, its introns vote %s (annotated strand where annotated on one strand, reference dinucleotides otherwise)" %
                                       (desc, tid, t["strand"], votes), wit)
+                    if h is not None and h.kind == "unstranded-annotation-novel":
+                        chk.count("novel_models_over_introns_annotated_without_strand")
+                        if t["strand"] != h.strand:
+                            chk.violation("novel-model-strand:introns-annotated-without-strand",
+                                          "%s: %s reported on '%s'; its introns are annotated without a strand and are all canonical on %s in the reference" %
+                                          (desc, tid, t["strand"], h.strand), wit)
                     chk.count("novel_model_strands_judged")
                     if h is not None and h.kind == "contested-intron-novel":
                         chk.count("novel_models_over_an_intron_annotated_on_both_strands")
